@@ -1,10 +1,10 @@
 """Properties decided by two engines: the library-level connection state machine (server_family) and the
 reference server (ref_family). Both parts run; coverage is merged, any violation of either part counts."""
 from vf import *
-import server_family, ref_family, lifecycle_family, framing_family
+import server_family, ref_family, lifecycle_family, framing_family, crypt_family
 
 PARTS = {"C06": (server_family, ref_family), "C07": (server_family, ref_family, framing_family), "C20": (server_family, lifecycle_family), "C14": (ref_family, lifecycle_family),
-         "C19": (server_family, ref_family)}
+         "C19": (server_family, ref_family), "C03": (crypt_family, ref_family)}
 
 
 def merge(a, b):
@@ -43,4 +43,6 @@ def replay(ctx, prop, obj):
         return lifecycle_family.replay(ctx, prop, obj)
     if k == "chaos" and obj.get("scenario", {}).get("stream"):
         return framing_family.replay(ctx, prop, obj)
+    if k == "client-event":
+        return crypt_family.replay(ctx, prop, obj)
     return server_family.replay(ctx, prop, obj)
